@@ -1,4 +1,4 @@
-//! Tracing number type: running the generic feos code with `Sym` records the
+//! Tracing number type: running the generic feos code with `Sym<K>` records the
 //! straight-line real-arithmetic program the code executes (route T of DESIGN.md).
 //!
 //! Every node carries the concrete f64 value the plain f64 run would have computed, so all
@@ -64,7 +64,7 @@ thread_local! {
 }
 
 #[derive(Clone, Copy, Debug)]
-pub struct Sym(pub u32);
+pub struct Sym<const K: usize = 1>(pub u32);
 
 pub fn reset() {
     ARENA.with(|a| *a.borrow_mut() = Trace::default());
@@ -72,7 +72,7 @@ pub fn reset() {
 pub fn take() -> Trace {
     ARENA.with(|a| std::mem::take(&mut *a.borrow_mut()))
 }
-fn push(n: Node, v: f64) -> Sym {
+fn push<const K: usize>(n: Node, v: f64) -> Sym<K> {
     ARENA.with(|a| {
         let mut a = a.borrow_mut();
         a.nodes.push((n, v));
@@ -82,19 +82,19 @@ fn push(n: Node, v: f64) -> Sym {
 fn event(e: Event) {
     ARENA.with(|a| a.borrow_mut().events.push(e));
 }
-pub fn val(s: Sym) -> f64 {
+pub fn val<const K: usize>(s: Sym<K>) -> f64 {
     ARENA.with(|a| a.borrow().nodes[s.0 as usize].1)
 }
-fn set_val(s: Sym, v: f64) {
+fn set_val<const K: usize>(s: Sym<K>, v: f64) {
     ARENA.with(|a| a.borrow_mut().nodes[s.0 as usize].1 = v);
 }
-pub fn var(k: u32, v: f64) -> Sym {
+pub fn var<const K: usize>(k: u32, v: f64) -> Sym<K> {
     push(Node::Var(k), v)
 }
-pub fn cst(v: f64) -> Sym {
+pub fn cst<const K: usize>(v: f64) -> Sym<K> {
     push(Node::Const(v), v)
 }
-fn un(op: Op1, a: Sym) -> Sym {
+fn un<const K: usize>(op: Op1, a: Sym<K>) -> Sym<K> {
     let x = val(a);
     let v = match op {
         Op1::Neg => -x,
@@ -111,7 +111,7 @@ fn un(op: Op1, a: Sym) -> Sym {
     };
     push(Node::Un(op, a.0), v)
 }
-fn bin(op: Op2, a: Sym, b: Sym) -> Sym {
+fn bin<const K: usize>(op: Op2, a: Sym<K>, b: Sym<K>) -> Sym<K> {
     let (x, y) = (val(a), val(b));
     let v = match op {
         Op2::Add => x + y,
@@ -123,20 +123,20 @@ fn bin(op: Op2, a: Sym, b: Sym) -> Sym {
 }
 /// the final node of a lowered operation keeps the value of the native f64 operation, so that
 /// subsequent control flow is exactly that of the f64 run
-fn with_native(s: Sym, v: f64) -> Sym {
+fn with_native<const K: usize>(s: Sym<K>, v: f64) -> Sym<K> {
     set_val(s, v);
     s
 }
 
 /// x^n by square-and-multiply (exact real identity; x^0 = 1; negative n through Inv)
-fn powi_lowered(x: Sym, n: i32) -> Sym {
+fn powi_lowered<const K: usize>(x: Sym<K>, n: i32) -> Sym<K> {
     if n == 0 {
         return cst(1.0);
     }
     let neg = n < 0;
     let mut e = n.unsigned_abs();
     let mut base = x;
-    let mut acc: Option<Sym> = None;
+    let mut acc: Option<Sym<K>> = None;
     loop {
         if e & 1 == 1 {
             acc = Some(match acc {
@@ -163,45 +163,45 @@ fn powi_lowered(x: Sym, n: i32) -> Sym {
 
 macro_rules! binop {
     ($tr:ident, $m:ident, $op:expr) => {
-        impl $tr<Sym> for Sym {
-            type Output = Sym;
-            fn $m(self, o: Sym) -> Sym {
+        impl<const K: usize> $tr<Sym<K>> for Sym<K> {
+            type Output = Sym<K>;
+            fn $m(self, o: Sym<K>) -> Sym<K> {
                 bin($op, self, o)
             }
         }
-        impl<'a> $tr<&'a Sym> for Sym {
-            type Output = Sym;
-            fn $m(self, o: &Sym) -> Sym {
+        impl<'a, const K: usize> $tr<&'a Sym<K>> for Sym<K> {
+            type Output = Sym<K>;
+            fn $m(self, o: &Sym<K>) -> Sym<K> {
                 bin($op, self, *o)
             }
         }
-        impl<'a> $tr<Sym> for &'a Sym {
-            type Output = Sym;
-            fn $m(self, o: Sym) -> Sym {
+        impl<'a, const K: usize> $tr<Sym<K>> for &'a Sym<K> {
+            type Output = Sym<K>;
+            fn $m(self, o: Sym<K>) -> Sym<K> {
                 bin($op, *self, o)
             }
         }
-        impl<'a, 'b> $tr<&'b Sym> for &'a Sym {
-            type Output = Sym;
-            fn $m(self, o: &Sym) -> Sym {
+        impl<'a, 'b, const K: usize> $tr<&'b Sym<K>> for &'a Sym<K> {
+            type Output = Sym<K>;
+            fn $m(self, o: &Sym<K>) -> Sym<K> {
                 bin($op, *self, *o)
             }
         }
-        impl $tr<f64> for Sym {
-            type Output = Sym;
-            fn $m(self, o: f64) -> Sym {
+        impl<const K: usize> $tr<f64> for Sym<K> {
+            type Output = Sym<K>;
+            fn $m(self, o: f64) -> Sym<K> {
                 bin($op, self, cst(o))
             }
         }
-        impl<'a> $tr<f64> for &'a Sym {
-            type Output = Sym;
-            fn $m(self, o: f64) -> Sym {
+        impl<'a, const K: usize> $tr<f64> for &'a Sym<K> {
+            type Output = Sym<K>;
+            fn $m(self, o: f64) -> Sym<K> {
                 bin($op, *self, cst(o))
             }
         }
-        impl $tr<Sym> for f64 {
-            type Output = Sym;
-            fn $m(self, o: Sym) -> Sym {
+        impl<const K: usize> $tr<Sym<K>> for f64 {
+            type Output = Sym<K>;
+            fn $m(self, o: Sym<K>) -> Sym<K> {
                 bin($op, cst(self), o)
             }
         }
@@ -212,46 +212,46 @@ binop!(Sub, sub, Op2::Sub);
 binop!(Mul, mul, Op2::Mul);
 binop!(Div, div, Op2::Div);
 
-fn rem_unsupported(a: Sym, b: Sym) -> Sym {
+fn rem_unsupported<const K: usize>(a: Sym<K>, b: Sym<K>) -> Sym<K> {
     event(Event::Unsupported("rem"));
     cst(val(a) % val(b))
 }
-impl Rem<Sym> for Sym {
-    type Output = Sym;
-    fn rem(self, o: Sym) -> Sym {
+impl<const K: usize> Rem<Sym<K>> for Sym<K> {
+    type Output = Sym<K>;
+    fn rem(self, o: Sym<K>) -> Sym<K> {
         rem_unsupported(self, o)
     }
 }
-impl<'a> Rem<&'a Sym> for Sym {
-    type Output = Sym;
-    fn rem(self, o: &Sym) -> Sym {
+impl<'a, const K: usize> Rem<&'a Sym<K>> for Sym<K> {
+    type Output = Sym<K>;
+    fn rem(self, o: &Sym<K>) -> Sym<K> {
         rem_unsupported(self, *o)
     }
 }
-impl<'a> Rem<Sym> for &'a Sym {
-    type Output = Sym;
-    fn rem(self, o: Sym) -> Sym {
+impl<'a, const K: usize> Rem<Sym<K>> for &'a Sym<K> {
+    type Output = Sym<K>;
+    fn rem(self, o: Sym<K>) -> Sym<K> {
         rem_unsupported(*self, o)
     }
 }
-impl<'a, 'b> Rem<&'b Sym> for &'a Sym {
-    type Output = Sym;
-    fn rem(self, o: &Sym) -> Sym {
+impl<'a, 'b, const K: usize> Rem<&'b Sym<K>> for &'a Sym<K> {
+    type Output = Sym<K>;
+    fn rem(self, o: &Sym<K>) -> Sym<K> {
         rem_unsupported(*self, *o)
     }
 }
-impl Rem<f64> for Sym {
-    type Output = Sym;
-    fn rem(self, o: f64) -> Sym {
+impl<const K: usize> Rem<f64> for Sym<K> {
+    type Output = Sym<K>;
+    fn rem(self, o: f64) -> Sym<K> {
         rem_unsupported(self, cst(o))
     }
 }
 
 macro_rules! asg {
     ($tr:ident, $m:ident, $op:tt) => {
-        impl $tr<Sym> for Sym { fn $m(&mut self, o: Sym) { *self = *self $op o; } }
-        impl<'a> $tr<&'a Sym> for Sym { fn $m(&mut self, o: &Sym) { *self = *self $op *o; } }
-        impl $tr<f64> for Sym { fn $m(&mut self, o: f64) { *self = *self $op o; } }
+        impl<const K: usize> $tr<Sym<K>> for Sym<K> { fn $m(&mut self, o: Sym<K>) { *self = *self $op o; } }
+        impl<'a, const K: usize> $tr<&'a Sym<K>> for Sym<K> { fn $m(&mut self, o: &Sym<K>) { *self = *self $op *o; } }
+        impl<const K: usize> $tr<f64> for Sym<K> { fn $m(&mut self, o: f64) { *self = *self $op o; } }
     };
 }
 asg!(AddAssign, add_assign, +);
@@ -260,32 +260,32 @@ asg!(MulAssign, mul_assign, *);
 asg!(DivAssign, div_assign, /);
 asg!(RemAssign, rem_assign, %);
 
-impl Neg for Sym {
-    type Output = Sym;
-    fn neg(self) -> Sym {
+impl<const K: usize> Neg for Sym<K> {
+    type Output = Sym<K>;
+    fn neg(self) -> Sym<K> {
         un(Op1::Neg, self)
     }
 }
-impl<'a> Neg for &'a Sym {
-    type Output = Sym;
-    fn neg(self) -> Sym {
+impl<'a, const K: usize> Neg for &'a Sym<K> {
+    type Output = Sym<K>;
+    fn neg(self) -> Sym<K> {
         un(Op1::Neg, *self)
     }
 }
-impl PartialEq for Sym {
-    fn eq(&self, o: &Sym) -> bool {
+impl<const K: usize> PartialEq for Sym<K> {
+    fn eq(&self, o: &Sym<K>) -> bool {
         event(Event::Cmp(self.0, o.0));
         val(*self) == val(*o)
     }
 }
-impl PartialOrd for Sym {
-    fn partial_cmp(&self, o: &Sym) -> Option<std::cmp::Ordering> {
+impl<const K: usize> PartialOrd for Sym<K> {
+    fn partial_cmp(&self, o: &Sym<K>) -> Option<std::cmp::Ordering> {
         event(Event::Cmp(self.0, o.0));
         val(*self).partial_cmp(&val(*o))
     }
 }
-impl Zero for Sym {
-    fn zero() -> Sym {
+impl<const K: usize> Zero for Sym<K> {
+    fn zero() -> Sym<K> {
         cst(0.0)
     }
     fn is_zero(&self) -> bool {
@@ -293,22 +293,22 @@ impl Zero for Sym {
         val(*self) == 0.0
     }
 }
-impl One for Sym {
-    fn one() -> Sym {
+impl<const K: usize> One for Sym<K> {
+    fn one() -> Sym<K> {
         cst(1.0)
     }
 }
-impl Num for Sym {
+impl<const K: usize> Num for Sym<K> {
     type FromStrRadixErr = ();
     fn from_str_radix(_: &str, _: u32) -> Result<Self, ()> {
         Err(())
     }
 }
-impl Signed for Sym {
-    fn abs(&self) -> Sym {
+impl<const K: usize> Signed for Sym<K> {
+    fn abs(&self) -> Sym<K> {
         un(Op1::Abs, *self)
     }
-    fn abs_sub(&self, o: &Sym) -> Sym {
+    fn abs_sub(&self, o: &Sym<K>) -> Sym<K> {
         event(Event::Cmp(self.0, o.0));
         if val(*self) <= val(*o) {
             cst(0.0)
@@ -316,7 +316,7 @@ impl Signed for Sym {
             *self - *o
         }
     }
-    fn signum(&self) -> Sym {
+    fn signum(&self) -> Sym<K> {
         event(Event::Re(self.0));
         cst(val(*self).signum())
     }
@@ -329,89 +329,89 @@ impl Signed for Sym {
         val(*self) < 0.0
     }
 }
-impl Inv for Sym {
-    type Output = Sym;
-    fn inv(self) -> Sym {
+impl<const K: usize> Inv for Sym<K> {
+    type Output = Sym<K>;
+    fn inv(self) -> Sym<K> {
         un(Op1::Inv, self)
     }
 }
-impl Sum for Sym {
-    fn sum<I: Iterator<Item = Sym>>(i: I) -> Sym {
-        i.fold(Sym::zero(), |a, b| a + b)
+impl<const K: usize> Sum for Sym<K> {
+    fn sum<I: Iterator<Item = Sym<K>>>(i: I) -> Sym<K> {
+        i.fold(Sym::<K>::zero(), |a, b| a + b)
     }
 }
-impl<'a> Sum<&'a Sym> for Sym {
-    fn sum<I: Iterator<Item = &'a Sym>>(i: I) -> Sym {
-        i.fold(Sym::zero(), |a, b| a + *b)
+impl<'a, const K: usize> Sum<&'a Sym<K>> for Sym<K> {
+    fn sum<I: Iterator<Item = &'a Sym<K>>>(i: I) -> Sym<K> {
+        i.fold(Sym::<K>::zero(), |a, b| a + *b)
     }
 }
-impl Product for Sym {
-    fn product<I: Iterator<Item = Sym>>(i: I) -> Sym {
-        i.fold(Sym::one(), |a, b| a * b)
+impl<const K: usize> Product for Sym<K> {
+    fn product<I: Iterator<Item = Sym<K>>>(i: I) -> Sym<K> {
+        i.fold(Sym::<K>::one(), |a, b| a * b)
     }
 }
-impl<'a> Product<&'a Sym> for Sym {
-    fn product<I: Iterator<Item = &'a Sym>>(i: I) -> Sym {
-        i.fold(Sym::one(), |a, b| a * *b)
+impl<'a, const K: usize> Product<&'a Sym<K>> for Sym<K> {
+    fn product<I: Iterator<Item = &'a Sym<K>>>(i: I) -> Sym<K> {
+        i.fold(Sym::<K>::one(), |a, b| a * *b)
     }
 }
-impl FromPrimitive for Sym {
-    fn from_i64(n: i64) -> Option<Sym> {
+impl<const K: usize> FromPrimitive for Sym<K> {
+    fn from_i64(n: i64) -> Option<Sym<K>> {
         Some(cst(n as f64))
     }
-    fn from_u64(n: u64) -> Option<Sym> {
+    fn from_u64(n: u64) -> Option<Sym<K>> {
         Some(cst(n as f64))
     }
-    fn from_f64(n: f64) -> Option<Sym> {
+    fn from_f64(n: f64) -> Option<Sym<K>> {
         Some(cst(n))
     }
 }
-impl From<f64> for Sym {
-    fn from(v: f64) -> Sym {
+impl<const K: usize> From<f64> for Sym<K> {
+    fn from(v: f64) -> Sym<K> {
         cst(v)
     }
 }
-impl fmt::Display for Sym {
+impl<const K: usize> fmt::Display for Sym<K> {
     fn fmt(&self, f: &mut fmt::Formatter) -> fmt::Result {
         write!(f, "s{}={}", self.0, val(*self))
     }
 }
-impl ScalarOperand for Sym {}
-impl DualStruct<Sym, f64> for Sym {
+impl<const K: usize> ScalarOperand for Sym<K> {}
+impl<const K: usize> DualStruct<Sym<K>, f64> for Sym<K> {
     type Real = f64;
-    type Lifted<D2: DualNum<f64, Inner = Sym>> = D2;
+    type Lifted<D2: DualNum<f64, Inner = Sym<K>>> = D2;
     fn real(&self) -> f64 {
         event(Event::Re(self.0));
         val(*self)
     }
-    fn lift<D2: DualNum<f64, Inner = Sym>>(&self) -> D2 {
+    fn lift<D2: DualNum<f64, Inner = Sym<K>>>(&self) -> D2 {
         D2::from_inner(*self)
     }
 }
 
-fn unsupported(name: &'static str, v: f64) -> Sym {
+fn unsupported<const K: usize>(name: &'static str, v: f64) -> Sym<K> {
     event(Event::Unsupported(name));
     cst(v)
 }
 
-impl DualNum<f64> for Sym {
-    const NDERIV: usize = 1;
+impl<const K: usize> DualNum<f64> for Sym<K> {
+    const NDERIV: usize = K;
     type Inner = f64;
-    fn from_inner(v: f64) -> Sym {
+    fn from_inner(v: f64) -> Sym<K> {
         cst(v)
     }
     fn re(&self) -> f64 {
         event(Event::Re(self.0));
         val(*self)
     }
-    fn recip(&self) -> Sym {
+    fn recip(&self) -> Sym<K> {
         un(Op1::Inv, *self)
     }
-    fn powi(&self, n: i32) -> Sym {
+    fn powi(&self, n: i32) -> Sym<K> {
         let native = val(*self).powi(n);
         with_native(powi_lowered(*self, n), native)
     }
-    fn powf(&self, n: f64) -> Sym {
+    fn powf(&self, n: f64) -> Sym<K> {
         let native = val(*self).powf(n);
         if n.fract() == 0.0 && n.abs() <= 64.0 {
             return with_native(powi_lowered(*self, n as i32), native);
@@ -421,86 +421,86 @@ impl DualNum<f64> for Sym {
         let m = bin(Op2::Mul, l, cst(n));
         with_native(un(Op1::Exp, m), native)
     }
-    fn sqrt(&self) -> Sym {
+    fn sqrt(&self) -> Sym<K> {
         un(Op1::Sqrt, *self)
     }
-    fn cbrt(&self) -> Sym {
+    fn cbrt(&self) -> Sym<K> {
         let native = val(*self).cbrt();
         let l = un(Op1::Ln, *self);
         let m = bin(Op2::Div, l, cst(3.0));
         with_native(un(Op1::Exp, m), native)
     }
-    fn exp(&self) -> Sym {
+    fn exp(&self) -> Sym<K> {
         un(Op1::Exp, *self)
     }
-    fn exp2(&self) -> Sym {
+    fn exp2(&self) -> Sym<K> {
         let native = val(*self).exp2();
         let m = bin(Op2::Mul, *self, cst(std::f64::consts::LN_2));
         with_native(un(Op1::Exp, m), native)
     }
-    fn exp_m1(&self) -> Sym {
+    fn exp_m1(&self) -> Sym<K> {
         let native = val(*self).exp_m1();
         let e = un(Op1::Exp, *self);
         with_native(bin(Op2::Sub, e, cst(1.0)), native)
     }
-    fn ln(&self) -> Sym {
+    fn ln(&self) -> Sym<K> {
         un(Op1::Ln, *self)
     }
-    fn log(&self, b: f64) -> Sym {
+    fn log(&self, b: f64) -> Sym<K> {
         let native = val(*self).log(b);
         let l = un(Op1::Ln, *self);
         with_native(bin(Op2::Div, l, cst(b.ln())), native)
     }
-    fn log2(&self) -> Sym {
+    fn log2(&self) -> Sym<K> {
         self.log(2.0)
     }
-    fn log10(&self) -> Sym {
+    fn log10(&self) -> Sym<K> {
         self.log(10.0)
     }
-    fn ln_1p(&self) -> Sym {
+    fn ln_1p(&self) -> Sym<K> {
         let native = val(*self).ln_1p();
         let s = bin(Op2::Add, cst(1.0), *self);
         with_native(un(Op1::Ln, s), native)
     }
-    fn sin(&self) -> Sym {
+    fn sin(&self) -> Sym<K> {
         un(Op1::Sin, *self)
     }
-    fn cos(&self) -> Sym {
+    fn cos(&self) -> Sym<K> {
         un(Op1::Cos, *self)
     }
-    fn tan(&self) -> Sym {
+    fn tan(&self) -> Sym<K> {
         un(Op1::Tan, *self)
     }
-    fn sin_cos(&self) -> (Sym, Sym) {
+    fn sin_cos(&self) -> (Sym<K>, Sym<K>) {
         (self.sin(), self.cos())
     }
-    fn asin(&self) -> Sym {
+    fn asin(&self) -> Sym<K> {
         unsupported("asin", val(*self).asin())
     }
-    fn acos(&self) -> Sym {
+    fn acos(&self) -> Sym<K> {
         unsupported("acos", val(*self).acos())
     }
-    fn atan(&self) -> Sym {
+    fn atan(&self) -> Sym<K> {
         un(Op1::Atan, *self)
     }
-    fn atan2(&self, o: Sym) -> Sym {
+    fn atan2(&self, o: Sym<K>) -> Sym<K> {
         unsupported("atan2", val(*self).atan2(val(o)))
     }
-    fn sinh(&self) -> Sym {
+    fn sinh(&self) -> Sym<K> {
         let native = val(*self).sinh();
         let e = un(Op1::Exp, *self);
         let ei = un(Op1::Inv, e);
         let d = bin(Op2::Sub, e, ei);
         with_native(bin(Op2::Div, d, cst(2.0)), native)
     }
-    fn cosh(&self) -> Sym {
+    fn cosh(&self) -> Sym<K> {
         let native = val(*self).cosh();
         let e = un(Op1::Exp, *self);
         let ei = un(Op1::Inv, e);
         let d = bin(Op2::Add, e, ei);
         with_native(bin(Op2::Div, d, cst(2.0)), native)
     }
-    fn tanh(&self) -> Sym {
+    fn tanh(&self) -> Sym<K> {
         // (e^{2x} - 1)/(e^{2x} + 1)
         let native = val(*self).tanh();
         let two = bin(Op2::Add, *self, *self);
@@ -509,24 +509,24 @@ impl DualNum<f64> for Sym {
         let d = bin(Op2::Add, e, cst(1.0));
         with_native(bin(Op2::Div, n, d), native)
     }
-    fn asinh(&self) -> Sym {
+    fn asinh(&self) -> Sym<K> {
         unsupported("asinh", val(*self).asinh())
     }
-    fn acosh(&self) -> Sym {
+    fn acosh(&self) -> Sym<K> {
         unsupported("acosh", val(*self).acosh())
     }
-    fn atanh(&self) -> Sym {
+    fn atanh(&self) -> Sym<K> {
         unsupported("atanh", val(*self).atanh())
     }
-    fn sph_j0(&self) -> Sym {
+    fn sph_j0(&self) -> Sym<K> {
         event(Event::Re(self.0));
         if val(*self).abs() < f64::EPSILON {
-            Sym::one() - *self * *self / 6.0
+            Sym::<K>::one() - *self * *self / 6.0
         } else {
             self.sin() / *self
         }
     }
-    fn sph_j1(&self) -> Sym {
+    fn sph_j1(&self) -> Sym<K> {
         event(Event::Re(self.0));
         if val(*self).abs() < f64::EPSILON {
             *self / 3.0
@@ -536,14 +536,14 @@ impl DualNum<f64> for Sym {
             (s * rec - c) * rec
         }
     }
-    fn sph_j2(&self) -> Sym {
+    fn sph_j2(&self) -> Sym<K> {
         event(Event::Re(self.0));
         if val(*self).abs() < f64::EPSILON {
             *self * *self / 15.0
         } else {
             let (s, c) = self.sin_cos();
             let s2 = *self * *self;
-            ((Sym::from(3.0) - s2) * s - *self * c * 3.0) / (*self * s2)
+            ((Sym::<K>::from(3.0) - s2) * s - *self * c * 3.0) / (*self * s2)
         }
     }
 }
